@@ -1,2 +1,66 @@
 """The individual tables read from the source (registered with tables.table)."""
 from tables import table, _module, _find_assign, _literal, coq_string_list, coq_z_list, codes, TableError
+
+
+# ---------------------------------------------------------------- C14: NRPS/PKS domain classes
+C14_SETS = ["ADENYLATIONS", "ACYLTRANSFERASES", "CONDENSATIONS", "ENDS", "KETOSYNTHASES", "MODIFIERS",
+            "CARRIER_PROTEINS", "ALTERNATE_STARTERS", "NON_MODULE", "OTHER", "SPECIAL"]
+# labels the code names by literal; the model refers to them through these constants
+C14_NAMED = ["CAL_domain", "PKS_KR", "Trans-AT_docking", "Thioesterase", "TD", "Condensation_Starter",
+             "Epimerization", "PKS_DH", "PKS_DH2", "PKS_DHt", "PKS_ER", "nMT", "cMT", "oMT"]
+
+
+def c14_tables(repo):
+    tree = _module(repo, "antismash/detection/nrps_pks_domains/module_identification.py")
+    env = {}
+    for name in C14_SETS:
+        val = _literal(_find_assign(tree, name), env)
+        if not isinstance(val, (set, frozenset)) or not all(isinstance(v, str) for v in val):
+            raise TableError(f"{name} is not a set of strings")
+        env[name] = set(val)
+    fused = _literal(_find_assign(tree, "FUSED_STARTERS"), env)
+    classifications = _find_assign(tree, "CLASSIFICATIONS")
+    import ast
+    if not isinstance(classifications, ast.Dict):
+        raise TableError("CLASSIFICATIONS is not a dict display")
+    class_order = []
+    for key, val in zip(classifications.keys, classifications.values):
+        if not (isinstance(val, ast.Name) and val.id in env):
+            raise TableError("CLASSIFICATIONS value is not one of the known sets")
+        class_order.append((ast.literal_eval(key), val.id))
+    doubles = _literal(_find_assign(tree, "DOUBLE_TRANSPORTER_CASES"), env)
+    doubles = sorted(tuple(case) for case in doubles)
+    labels = sorted(set().union(*env.values()) | set(fused) | {l for case in doubles for l in case} | set(C14_NAMED))
+    index = {lab: i for i, lab in enumerate(labels)}
+    out = ["(* --- C14: antismash/detection/nrps_pks_domains/module_identification.py --- *)\n"]
+    out.append(coq_string_list("c14_labels", labels))
+    for name in C14_SETS:
+        out.append(coq_z_list("c14_" + name.lower(), sorted(index[l] for l in env[name])))
+    out.append(coq_z_list("c14_fused_starters", sorted(index[l] for l in fused)))
+    out.append("Definition c14_classification_order : list (list Z) := [" +
+               "; ".join("c14_" + setname.lower() for _key, setname in class_order) + "].\n")
+    out.append("Definition c14_double_transporter_cases : list (list Z) := [" +
+               "; ".join("[" + "; ".join(str(index[l]) for l in case) + "]" for case in doubles) + "].\n")
+    out.append(coq_z_list("c14_pks_prefixed", sorted(index[l] for l in labels if l.startswith("PKS"))))
+    for lab in C14_NAMED:
+        ident = "c14_L_" + lab.replace("-", "_")
+        out.append(f"Definition {ident} : Z := {index[lab]}.\n")
+    out.append("\n")
+    info = {"c14_labels": len(labels), "c14_class_order": [k for k, _ in class_order],
+            "c14_double_transporter_cases": [list(c) for c in doubles]}
+    return "".join(out), info
+
+
+table(c14_tables)
+
+
+def c14_label_index(repo):
+    """ used by the harness: label -> index, identical to the generated table """
+    tree = _module(repo, "antismash/detection/nrps_pks_domains/module_identification.py")
+    env = {}
+    for name in C14_SETS:
+        env[name] = set(_literal(_find_assign(tree, name), env))
+    fused = _literal(_find_assign(tree, "FUSED_STARTERS"), env)
+    doubles = _literal(_find_assign(tree, "DOUBLE_TRANSPORTER_CASES"), env)
+    labels = sorted(set().union(*env.values()) | set(fused) | {l for case in doubles for l in case} | set(C14_NAMED))
+    return labels, env
